@@ -1226,19 +1226,28 @@ def parse_response_start_line(line: str) -> ResponseStartLine:
 
 def _parseparam(s: str) -> Generator[str]:
     start = 0
+    n = len(s)
     while s.find(";", start) == start:
         start += 1
-        end = s.find(";", start)
-        ind, diff = start, 0
-        while end > 0:
-            diff += s.count('"', ind, end) - s.count('\\"', ind, end)
-            if diff % 2 == 0:
+        end = start
+        in_quotes = False
+        # Find the next semicolon that is not inside a quoted-string. Within
+        # a quoted-string a backslash escapes the following character (so
+        # ``"a\\"`` is a complete string that ends in a backslash).
+        while end < n:
+            c = s[end]
+            if in_quotes:
+                if c == "\\":
+                    end += 1
+                elif c == '"':
+                    in_quotes = False
+            elif c == '"':
+                in_quotes = True
+            elif c == ";":
                 break
-            end, ind = ind, s.find(";", end + 1)
-        if end < 0:
-            end = len(s)
-        f = s[start:end]
-        yield f.strip()
+            end += 1
+        end = min(end, n)
+        yield s[start:end].strip()
         start = end
 
 
